@@ -91,6 +91,9 @@ Layout ==
   "ICMP_param" :> C(8, FALSE, IcmpHead @@ [pointer |-> P(32, 8), rfc4884_length |-> Ln(40, 8)]) @@
   (* RFC 1191 4 Destination Unreachable / fragmentation needed: unused(16), Next-Hop MTU(16); RFC 4884 Length octet *)
   "ICMP_mtu" :> C(8, FALSE, IcmpHead @@ [rfc4884_length |-> Ln(40, 8), mtu |-> P(48, 16)]) @@
+  (* the same two formats with the RFC 4884 length attribute in use and an original datagram behind the header *)
+  "ICMP_mtu_len" :> C(8, FALSE, IcmpHead @@ [rfc4884_length |-> Ln(40, 8), mtu |-> P(48, 16)]) @@
+  "ICMP_param_len" :> C(8, FALSE, IcmpHead @@ [pointer |-> P(32, 8), rfc4884_length |-> Ln(40, 8)]) @@
   "ICMP_timestamp" :> C(20, TRUE, IcmpHead @@ [id |-> P(32, 16), sequence |-> P(48, 16), original_timestamp |-> P(64, 32),
         receive_timestamp |-> P(96, 32), transmit_timestamp |-> P(128, 32)]) @@                 \* RFC 792 Timestamp
   "ICMP_mask" :> C(12, TRUE, IcmpHead @@ [id |-> P(32, 16), sequence |-> P(48, 16), address_mask |-> A(64, 32)]) @@   \* RFC 950 App. I
